@@ -170,6 +170,14 @@ BOUNDARY = [s for s in gen.LEAF_SCHEMAS if "alias" not in s] + [
     "schema.float(123456.123456).min(-123456789.123456789).max(123456789.123456789).precision(6)", "schema.int(12345678901234567890).min(-12345678901234567890123456789).max(1234567890123456789012345678901234567890)",
     "schema.list(schema.str.alphabet('abcdefghijklmnopqrstuvwxyzABCDEFGHIJKLMNOPQRSTUVWXYZ').contains('abcdefghijklmnopqrstuvwxyz').len(26, 99)).len(1, 1000000)",
     "schema.bytes(b'0123456789abcdef' * 8)", "schema.list([schema.int(1), schema.int(2), schema.int(3), schema.int(4), schema.int(5), schema.int(6), schema.int(7), schema.int(8), schema.int(9), schema.int(10), schema.int(11), schema.int(12), schema.int(13), schema.int(14), schema.int(15), ...]).len(15, 1000)",
+    # aware datetimes whose offset is not a whole number of hours, or not even of minutes
+    "schema.datetime(datetime.datetime(2020, 1, 2, 3, 4, 5, tzinfo=datetime.timezone(datetime.timedelta(hours=5, minutes=30))))",
+    "schema.datetime(datetime.datetime(2020, 1, 2, 3, 4, 5, tzinfo=datetime.timezone(datetime.timedelta(hours=-3, minutes=-30))))",
+    "schema.datetime(datetime.datetime(1999, 12, 31, 23, 59, 59, 999999, tzinfo=datetime.timezone(datetime.timedelta(seconds=3723), 'X')))",
+    "schema.list([schema.datetime(datetime.datetime(2020, 1, 2, tzinfo=datetime.timezone(datetime.timedelta(minutes=45)))), ...])",
+    "schema.dict({'at': schema.datetime(datetime.datetime(2020, 1, 2, tzinfo=datetime.timezone(-datetime.timedelta(hours=9, minutes=30))))})",
+    # empty element lists with every len form
+    "schema.list([]).len(0, ...)", "schema.list([]).len(..., 3)", "schema.list([]).len(0, 4)", "schema.dict({'l': schema.list([]).len(0)})",
     # ints beyond the float range (but printable): int parameters are printed as ints, whatever floats can hold
     "schema.int(10**400)", "schema.int.min(-10**400).max(10**400)", "schema.int(-10**309).min(-10**310)",
     "schema.list([schema.int(10**400), ...]).len(1, 10**400)", "schema.dict({10**400: schema.int.max(2**1024)})",
